@@ -6,6 +6,7 @@
 import ThriftVerif.Lib.DumpLemmas
 import ThriftVerif.Lib.DumpNumLemmas
 import ThriftVerif.Lib.DumpReadLemmas
+import ThriftVerif.Lib.DumpTreeLemmas
 import ThriftVerif.Generated.C17
 
 namespace Props.C17
@@ -150,5 +151,28 @@ theorem dump_parse_partial (ff : Nat → Bytes) (pf : Bytes → Nat) (cv : CV) (
 theorem dump_accepted_partial (ff : Nat → Bytes) (pf : Bytes → Nat) (cv : CV) (hg : GoodCV ff pf cv)
     (rest : Bytes) (ht : Term rest) : (readCV pf (cvSize cv) (dumpCV cfg ff cv ++ rest)).isSome = true := by
   rw [constvalue_roundtrip ff pf cv hg rest ht _ (Nat.le_refl _)]; rfl
+
+/-! ## the `-r` whole-tree dump (`recurseDump`) -/
+
+/-- tree_dump_exactly_once: for an include structure in which a file has the same includes wherever it
+    occurs (`Consistent`; include cycles are rejected before), `recurseDump` from the main file writes
+    every reachable file, writes nothing else, and writes no file twice. -/
+theorem tree_dump_exactly_once (root : DumpTree.Node) (hcons : DumpTree.Consistent root) :
+    (∀ t ∈ DumpTree.occ root, t.id ∈ DumpTree.rd root [])
+    ∧ (∀ a ∈ DumpTree.rd root [], ∃ t ∈ DumpTree.occ root, t.id = a)
+    ∧ (DumpTree.rd root []).Nodup := by
+  refine ⟨fun t ht => ?_, fun a ha => ?_, DumpTree.rd_nodup root [] List.nodup_nil⟩
+  · exact DumpTree.complete_node root hcons root (fun t h => h) (DumpTree.rd_self root []) t ht
+  · rcases DumpTree.rd_explained root [] a ha with h | ⟨l, hl, _⟩
+    · simp at h
+    · exact ⟨_, hl, rfl⟩
+
+/-- main includes a, b; a includes common; b includes common, extra (ids 0,1,2,3,4): the code writes all five;
+    a loop that stops at the first already-written include (seeded change C17-m6) never writes `extra`. -/
+theorem tree_dump_break_witness :
+    let common := DumpTree.Node.mk 3 []
+    let root := DumpTree.Node.mk 0 [.mk 1 [common], .mk 2 [common, .mk 4 []]]
+    DumpTree.rd root [] = [0, 1, 3, 2, 4] ∧ DumpTree.rdBreak root [] = [0, 1, 3, 2] := by
+  decide
 
 end Props.C17
